@@ -323,15 +323,36 @@ def named_component_reader(check: Check, m: str) -> None:
 
 
 def range_setter_order(check: Check) -> list[str]:
+    """Attributes the `range` setter assigns, ordered by the position of the given pair they receive (resolved terms: tuple
+    assignment, temporaries, subscripts of the parameter)."""
     p = check.program
     fn = p.cls("Variable").lookup_setter("range")
     if fn is None:
         raise AnalysisError("anchor vanished: Variable.range setter")
-    out = []
-    for s in ast.walk(fn.analysis_node):
-        if isinstance(s, ast.Assign) and isinstance(s.targets[0], ast.Tuple):
-            out = [e.attr for e in s.targets[0].elts if isinstance(e, ast.Attribute)]
-    return out
+    r = Resolver(p, fn)
+    prm = ("param", fn.params[1].name)
+    got: dict[int, str] = {}
+    for n in r.cfg.stmt_nodes():
+        a = n.ast
+        if not isinstance(a, (ast.Assign, ast.AnnAssign)) or a.value is None:
+            continue
+        targets = a.targets if isinstance(a, ast.Assign) else [a.target]
+        for tg in targets:
+            elts = list(tg.elts) if isinstance(tg, ast.Tuple) else [tg]
+            for i, e in enumerate(elts):
+                if not (isinstance(e, ast.Attribute) and r.term(e.value, n) == ("param", "self")):
+                    continue
+                v = r.term(a.value, n)
+                pos = None
+                if isinstance(tg, ast.Tuple) and v == prm:
+                    pos = i
+                elif v[0] == "unpack" and v[1] == prm and len(v[2]) == 1:
+                    pos = v[2][0]
+                elif v[0] == "sub" and v[1] == prm and v[2][0] == "const" and isinstance(v[2][1], int):
+                    pos = v[2][1]
+                if pos is not None:
+                    got[pos] = e.attr
+    return [got[k] for k in sorted(got)]
 
 
 def spellings(check: Check) -> None:
